@@ -9,6 +9,7 @@ import time
 import common
 import compile_probe
 import corpus
+import run_probe
 import gen
 import proofs
 from common import VERIF, log
@@ -221,7 +222,7 @@ def check_c05_nested(res, cases):
 
 def decide(prop, tier, seed, t0):
     common.ensure_tools()
-    audit = proofs.audit(prop)
+    audit = proofs.audit(prop, tier)
     res = corpus.load_or_run(seed, tier)
     cases = {c["cid"]: c for c in res["cases"]}
     rows = all_rows(res)
@@ -263,6 +264,31 @@ def decide(prop, tier, seed, t0):
         e, f = check_c05_nested(res, cases)
         extra_evals += e
         extra_fails += f
+    run_info = None
+    if prop in ("C01", "C05", "C06", "C07"):
+        # Layer B: compiled differential clients (direct call vs generated trait call; traces and results)
+        rp = run_probe.run_probe(seed, tier)
+        mine = [(int(cid), v) for cid, v in rp["results"].items() if v["prop"] == prop]
+        rcases = {c["cid"]: c for c in rp["cases"]}
+        bad = [(cid, v) for cid, v in mine if not v["ok"]]
+        missing = [c for c in rp["cases"] if c["prop"] == prop and str(c["cid"]) not in rp["results"]]
+        run_info = {"programs": len([c for c in rp["cases"] if c["prop"] == prop]), "ran": len(mine), "failed": len(bad),
+                    "rejected_by_rustc": rp.get("rejected", 0), "not_run": len(missing),
+                    "by_family": {}}
+        for c in rp["cases"]:
+            if c["prop"] == prop:
+                run_info["by_family"][c["family"]] = run_info["by_family"].get(c["family"], 0) + 1
+        extra_evals += len(mine)
+        if bad:
+            cid, v = min(bad, key=lambda x: len(rcases[x[0]]["code"]))
+            path = write_replay(prop, "input", None, None,
+                                {"failing_predicate": "run-time probe: the call through the generated trait differs from the direct call (trace / result), or rustc rejects the client",
+                                 "program": rcases[cid]["code"], "family": rcases[cid]["family"], "observed": v["detail"][:1500],
+                                 "other_failing_programs": len(bad) - 1, "how_to_run": "harness/run_probe.py builds the crate: PRELUDE + this module + `fn main() { k%d::run(); }`" % cid})
+            violations.append((path, ""))
+        elif missing and rp.get("rc", 0) != 0:
+            path = write_replay(prop, "input", None, None, {"failing_predicate": "the run-time probe crate did not build / run", "output": rp.get("output_tail", "")[-1500:]})
+            violations.append((path, ""))
     compile_info = None
     compile_known = {}
     if prop == "C03":
@@ -389,7 +415,7 @@ def decide(prop, tier, seed, t0):
             "applicable_by_family": fam, "applicable_by_kind_outcome": kinds,
             "failing_on_impl": len(failing), "failing_in_known_classes": len(failing) - len(unknown),
             "tie_broken_cases": len(tie_broken), "cross_case_evaluations": extra_evals,
-            "corpus_stats": res["stats"], "corpus_key": res["key"], "compile_probe": compile_info,
+            "corpus_stats": res["stats"], "corpus_key": res["key"], "compile_probe": compile_info, "run_probe": run_info,
             "explanation": "proof = Coq theorems about the Gallina model; tie = every recorded invocation of the corpus is expanded by the extracted model and compared (token-exact) with the real macro's output, and the property's predicate is evaluated on the implementation's expansion",
         },
         "assumptions": ["rustc hands the macro syntactically valid items only", "syn 2.0.119 parse/print behaviour as re-implemented in coq/Syn.v",
